@@ -899,8 +899,12 @@ func (e *env) runSequence(caseID string, rng *rand.Rand, maxTries, nOps int) {
 	}
 	r.Count("sequences_"+e.mode, 1)
 	r.Case(shape.String(), sawFailure && (sawDeact || sawReact))
-	if r.WantSample() && sawDeact && sawReact && len(log) <= 30 {
-		r.Sample(map[string]any{"case": caseID, "mode": e.mode, "max_tries": maxTries, "ops": log})
+	if r.WantSample() && sawFailure {
+		ops := log
+		if len(ops) > 40 {
+			ops = ops[:40]
+		}
+		r.Sample(map[string]any{"case": caseID, "mode": e.mode, "max_tries": maxTries, "deactivation_seen": sawDeact, "reactivation_seen": sawReact, "ops_total": len(log), "ops_first_40": ops})
 	}
 }
 
